@@ -6,6 +6,7 @@
   Both facts are probed against /repo by the translator on every run (Generated.Config).
 -/
 import Pyab.Generated.Config
+import Pyab.Properties.ChoicePure
 import Pyab.Properties.PurePremise
 import Pyab.Generated.Pipeline
 namespace Pyab.Properties
